@@ -474,6 +474,9 @@ func (e *enc) applyContract(ins ssa.Instruction, fc *FuncContract, key string, s
 		if res == nil && mentionsResult(c.Expr) {
 			continue
 		}
+		if src := c.Expr.String(); strings.Contains(src, "callresult(") || strings.Contains(src, "ncalls(") || strings.Contains(src, "atlock(") || strings.Contains(src, "loopval(") {
+			continue // talks about the callee's own activation: not usable by callers
+		}
 		t, err := env.boolTerm(c.Expr)
 		if err != nil {
 			e.contractError(c, err)
